@@ -2,9 +2,13 @@
 (C01, C02, C07, C08, C10-table leg, C17)."""
 from __future__ import annotations
 
+import os
+
 from simkit import xmlref
 from simkit.kernel import HarnessError, Violation
 from engines import tablesim as ts
+from engines import table_probes
+from engines import table_laws
 from engines.grid import Grid, Rejects
 
 SMALL_SAMPLES = [
@@ -30,6 +34,9 @@ RAW_WEIGHTS = {
     "C02": {"rstrip": 3, "optimize_width": 3, "transpose": 2, "set_span": 2, "del_span": 1, "live_row_rep": 4, "live_cell_rep": 4},
     # C07 quantifies over histories of public Table/Row operations: the
     # repeated-setters on live wrappers (C02's quantifier) are not in it
+    # (the repeated-setters on live wrappers are a known C02 finding that leaves the live table stale: kept out of C10)
+    "C10": {"rstrip": 2, "optimize_width": 2, "transpose": 1, "set_span": 1, "del_span": 1},
+    "C17": {"set_span": 1},
     "C07": {"rstrip": 3, "optimize_width": 3, "transpose": 2, "set_span": 2, "del_span": 1},
 }
 
@@ -83,9 +90,26 @@ class TableEngine:
         self.n_warm_mut = 0
         self._last_was_read = False
         self._pre_height = 0
+        self.n_probe = 0
+        self._restore_xml = None
+        self.twin = None  # C10: the other TableSUT
+        self.n_law = 0
+        self.n_twin_ops = 0
+        self._scratch = None
+
+    def scratch(self):
+        import tempfile
+
+        if self._scratch is None:
+            base = os.environ.get("VERIF_SCRATCH") or ("/dev/shm" if os.path.isdir("/dev/shm") else None)
+            self._scratch = tempfile.mkdtemp(prefix="odfdo-verif-T-", dir=base)
+        return self._scratch
 
     def close(self):
-        pass
+        if self._scratch:
+            import shutil
+
+            shutil.rmtree(self._scratch, ignore_errors=True)
 
     def outcome(self):
         return self._outcome
@@ -98,6 +122,12 @@ class TableEngine:
     def nontrivial(self):
         """>= 3 mutations, >= 1 mutation whose target was inside a repeated
         run, and >= 1 restart or mutation issued right after a cache-warming read"""
+        if self.prop == "C08":
+            return self.n_mut >= 2 and self.n_probe >= 2
+        if self.prop == "C17":
+            return self.n_law >= 2 and self.n_mut >= 1
+        if self.prop == "C10":
+            return self.twin is not None and self.n_twin_ops >= 3
         return self.n_mut >= 3 and self.n_mut_in_run >= 1 and (self.n_restart + self.n_warm_mut) >= 1
 
     # ------------------------------------------------------------ generators
@@ -364,6 +394,9 @@ class TableEngine:
     def gen_op(self, rng):
         tv = self.sut.view()
         cfg = self.cfg
+        if self.prop == "C10" and self.twin is not None:
+            # aim at whichever twin the op will go to: decided first
+            pass
         if rng.chance(cfg["p_restart"], "restart?"):
             how = "doc" if (self.sut.doc is not None and rng.chance(0.5, "rhow")) else "xml"
             return {"op": "restart", "how": how, "obs": self._obs_plan(rng, tv)}
@@ -376,6 +409,22 @@ class TableEngine:
             if kind in ("get_row", "get_cell") and rng.chance(0.5, "rclone"):
                 op["clone"] = False
             return op
+        if self.prop == "C08" and rng.chance(0.45, "probe?"):
+            return table_probes.gen_probe(self, rng, tv)
+        if self.prop == "C17" and rng.chance(0.45, "law?"):
+            return table_laws.gen_law(self, rng, tv)
+        if self.prop == "C10":
+            if self.twin is None and rng.chance(0.4, "clone?"):
+                return {"op": "clone", "obs": {"level": "full"}}
+            if rng.chance(0.12, "cloneitem?"):
+                what = rng.choice(["row", "cell"], "cloneitem")
+                op = {"op": "clone_" + what, "c": self._coord(rng, tv, beyond=False) if tv.height else {"x": 0, "y": 0}, "obs": {"level": "none"}}
+                self.counter += 1
+                op["v"] = f"c{self.counter}"
+                op["mut"] = rng.choice(["set_value", "append", "delete", "insert", "style", "repeated"], "cmut")
+                if self.twin is not None and rng.chance(0.5, "on"):
+                    op["on"] = "twin"
+                return op
         W, H = tv.width, tv.height
         D = cfg["max_dim"]
         weights = []
@@ -557,12 +606,160 @@ class TableEngine:
         if "x" in op and self._form(rng) == "s":
             op["xform"] = "s"
         op["obs"] = self._obs_plan(rng, tv)
+        if self.prop == "C10" and self.twin is not None and rng.chance(0.5, "on"):
+            op["on"] = "twin"
         if name in ("live_row_rep", "live_cell_rep"):
             op["obs"]["level"] = "full"  # attribute a divergence to this very step
         return op
 
     # ------------------------------------------------------------------ step
+    def _twin_obs(self, sut):
+        t = sut.table
+        return {
+            "xml": t.serialize(),
+            "obs": ts.observe_table(t, {"level": "full"}),
+            "abs_rows": len(t.get_elements("//table:table-row")),
+        }
+
     def step(self, op):
+        if self.prop != "C10" or op["op"] == "init":
+            return self._step1(op)
+        name = op["op"]
+        if name == "clone":
+            if self.twin is not None:
+                return []
+            try:
+                before = self._twin_obs(self.sut)
+            except Exception:
+                self.resync()
+                return []
+            tw = ts.TableSUT()
+            tw.table = self.sut.table.clone
+            self.twin = tw
+            self.stats.probe("op:clone")
+            self._outcome = "clone"
+            after = self._twin_obs(self.sut)
+            if after != before:
+                return [Violation("C10", "clone-modified-original", "clone", [], None, ts.first_diff(before, after) or "")]
+            born = self._twin_obs(tw)
+            born["abs_rows"] = before["abs_rows"]  # the clone lives under its own root
+            d = ts.first_diff({"xml": before["xml"], "obs": before["obs"]}, {"xml": born["xml"], "obs": born["obs"]})
+            if d:
+                return [Violation("C10", "clone-differs-at-birth", "clone", [], None, d)]
+            return []
+        on_twin = op.get("on") == "twin" and self.twin is not None
+        active, other = (self.twin, self.sut) if on_twin else (self.sut, self.twin)
+        snap = None
+        if other is not None:
+            try:
+                snap = self._twin_obs(other)
+            except Exception:
+                snap = None
+        # run the op on the active twin through the ordinary machinery
+        saved = self.sut
+        self.sut = active
+        try:
+            vs = self._step1(op)
+        finally:
+            active = self.sut  # (restart may have replaced the table object, same TableSUT)
+            self.sut = saved
+        if other is not None:
+            self.n_twin_ops += 1
+        if vs:
+            return vs
+        if snap is not None:
+            try:
+                now = self._twin_obs(other)
+            except Exception as e:
+                return [Violation("C10", "twin-unreadable", op["op"], ["on_twin" if on_twin else "on_orig"], type(e).__name__, str(e))]
+            d = ts.first_diff(snap, now)
+            if d:
+                return [Violation("C10", "twin-changed", op["op"] if op["op"] != "read" else "read:" + op["kind"], ["on_twin" if on_twin else "on_orig"], None, "the untouched twin changed: " + d)]
+        return vs
+
+    def _clone_item(self, op, tv):
+        """Row.clone / Cell.clone: equal at birth, independent afterwards"""
+        from odfdo import Cell
+
+        t = self.sut.table
+        what = op["op"][6:]
+        x, y = op["c"]["x"], op["c"]["y"]
+        if y >= tv.height:
+            return []
+        name = op["op"]
+        before_xml = t.serialize()
+        try:
+            if what == "row":
+                a = t.get_row(y, clone=False)
+            else:
+                if x >= len(tv.rows[y]):
+                    return []
+                a = t.get_cell((x, y), clone=False)
+            a_ser = a.serialize()
+            b = a.clone
+        except Exception:
+            self.resync()
+            return []
+        self.stats.probe("op:" + name)
+        if t.serialize() != before_xml or a.serialize() != a_ser:
+            return [Violation("C10", "clone-modified-original", name, [], None, "cloning changed the original")]
+        if b.serialize() != a_ser:
+            return [Violation("C10", "clone-differs-at-birth", name, [], None, "serialisation differs")]
+        if what == "row":
+            if (b.y, b.width, ts.norm(b.get_values())) != (a.y, a.width, ts.norm(a.get_values())):
+                return [Violation("C10", "clone-differs-at-birth", name, [], None, f"row y/width/values: clone ({b.y},{b.width}) original ({a.y},{a.width})")]
+        else:
+            if (b.x, b.y, ts.norm(b.get_value())) != (a.x, a.y, ts.norm(a.get_value())):
+                return [Violation("C10", "clone-differs-at-birth", name, ["x0" if x == 0 else "x>0", "y0" if y == 0 else "y>0"], None, f"cell clone carries x={b.x} y={b.y}, original x={a.x} y={a.y}")]
+        # mutate the clone: the original and the table must not notice
+        mut = op.get("mut", "set_value")
+        try:
+            if what == "row":
+                if mut == "set_value":
+                    b.set_value(0, op["v"])
+                elif mut == "append":
+                    b.append_cell(Cell(op["v"]))
+                elif mut == "delete":
+                    b.delete_cell(0)
+                elif mut == "insert":
+                    b.insert_cell(0, Cell(op["v"]))
+                elif mut == "style":
+                    b.style = "clone_style"
+                else:
+                    b.repeated = 3
+            else:
+                if mut == "style":
+                    b.style = "clone_style"
+                elif mut == "repeated":
+                    b.repeated = 3
+                else:
+                    b.set_value(op["v"])
+        except Exception:
+            self.resync()
+            return []
+        if t.serialize() != before_xml or a.serialize() != a_ser:
+            return [Violation("C10", "twin-changed", name, ["mutated_clone"], None, f"mutating ({mut}) the {what} clone changed the original")]
+        if what == "row":
+            try:
+                vals = ts.norm(a.get_values())
+                w = a.width
+            except Exception as e:
+                return [Violation("C10", "twin-unreadable", name, ["mutated_clone"], type(e).__name__, str(e))]
+            tvr = tv.rows[y]
+            if w != len(tvr) or vals != ts.norm([c.value for c in tvr]):
+                return [Violation("C10", "twin-changed", name, ["mutated_clone"], None, f"after mutating the clone the original row answers width {w} values {vals}")]
+        # mutate the original through the table API: the clone must not notice
+        b_ser = b.serialize()
+        try:
+            t.set_value((x if what == "cell" else 0, y), op["v"] + "o")
+        except Exception:
+            self.resync()
+            return []
+        if b.serialize() != b_ser:
+            return [Violation("C10", "twin-changed", name, ["mutated_original"], None, f"editing the table changed a {what} clone taken earlier")]
+        return []
+
+    def _step1(self, op):
         prop = self.prop
         name = op["op"]
         if name == "init":
@@ -597,6 +794,26 @@ class TableEngine:
         elif name == "restart":
             self.n_restart += 1
         self._last_was_read = name == "read"
+        if name == "law":
+            self.n_law += 1
+            vs = table_laws.run_law(self, op, tv)
+            self._outcome = "law:" + (vs[0].oracle if vs else "ok")
+            try:
+                self.stats.states.add(ts.state_digest(self.sut.view()))
+            except Exception:
+                pass
+            return vs
+        if name in ("clone_row", "clone_cell"):
+            vs = self._clone_item(op, tv)
+            self._outcome = name + ":" + (vs[0].oracle if vs else "ok")
+            return vs
+        if name == "probe":
+            self._outcome = "probe"
+            self.n_probe += 1
+            self._restore_xml = None
+            vs = table_probes.run_probe(self, op, tv)
+            self._outcome = "probe:" + (vs[0].oracle if vs else "ok")
+            return vs
         aux = {}
         sut_exc = None
         sut_exc_detail = ""
@@ -747,7 +964,13 @@ class TableEngine:
         """after a known finding: SUT := fresh parse of its own XML when that
         XML is structurally sound, model := independent expansion of the SUT"""
         try:
-            self.sut.restart("xml")
+            if self._restore_xml is not None:
+                # a probe mutated the table through an aliased object: go
+                # back to the table as it was before the probe
+                self.sut.replace_from_xml(self._restore_xml)
+                self._restore_xml = None
+            else:
+                self.sut.restart("xml")
         except Exception as e:
             raise HarnessError(f"resync failed: {e}")
         self.grid = Grid.from_view(self.sut.view())
